@@ -44,7 +44,7 @@ class Contract:
                  types=None, returns=None, trusted=False, inline=False, pure=False, variant=None,
                  may_suspend=False, notes="", self_type=None, env=None, assume_no_raise=(), ghost=(),
                  pre_lemmas=(), post_lemmas=(), verify=True, call_inline=False, abstract=False, yields=None,
-                 rely=(), rely_havoc=(), cancellable=False, ghost_exit=()):
+                 rely=(), rely_havoc=(), cancellable=False, ghost_exit=(), hints=()):
         self.qualname = qualname
         self.props = tuple(props)
         self.requires = _clauses(requires, props)
@@ -72,6 +72,7 @@ class Contract:
         self.rely_havoc = [ast.parse(m.strip(), mode="eval").body for m in rely_havoc]
         self.cancellable = cancellable
         self.ghost_exit = list(ghost_exit)
+        self.hints = _clauses(hints, props)     # Dafny-style asserts at entry: proved, then assumed
 
     @property
     def key(self):
